@@ -18,10 +18,23 @@
 #include <map>
 
 #if defined(__SANITIZE_ADDRESS__)
-#define BUILD_TAG "asan"
+#define BUILD_TAG_ "asan"
 #else
-#define BUILD_TAG "plain"
+#define BUILD_TAG_ "plain"
 #endif
+// thorough tier: the plain build also runs under valgrind (memcheck); its error counter is sampled around the two
+// deliveries of every datagram, so an invalid / uninitialised-value use is attributed to the datagram that caused it
+#if defined(__has_include)
+#if __has_include(<valgrind/valgrind.h>)
+#include <valgrind/valgrind.h>
+#define HAVE_VG 1
+#endif
+#endif
+#ifndef HAVE_VG
+#define RUNNING_ON_VALGRIND 0
+#define VALGRIND_COUNT_ERRORS 0
+#endif
+static const char *BUILD_TAG = BUILD_TAG_;
 
 static double real_now_s() { struct timespec ts; syscall(SYS_clock_gettime, CLOCK_MONOTONIC, &ts); return ts.tv_sec + ts.tv_nsec * 1e-9; }
 
@@ -47,7 +60,7 @@ static void violation(std::string sig, const std::string &label, const Bytes &dg
   shm->viols++; if (sig.size() > 170) sig.resize(170);
   for (auto &e : shm->sigs) {
     if (e.sig[0] == 0) { strncpy(e.sig, sig.c_str(), sizeof(e.sig) - 1); }
-    if (sig == e.sig) { if (++e.n <= 3) { std::string l = "@VIOL sig=" + sig + " :: " + hex(dg) + "  [" BUILD_TAG " " + label + "; " + detail + "]\n"; emit(l.c_str()); } return; }
+    if (sig == e.sig) { if (++e.n <= 3) { std::string l = "@VIOL sig=" + sig + " :: " + hex(dg) + "  [" + std::string(BUILD_TAG) + " " + label + "; " + detail + "]\n"; emit(l.c_str()); } return; }
   }
 }
 static void outcome(const std::string &t) {
@@ -217,9 +230,13 @@ static void *worker_thread(void *arg) {
     shm->cur = i; shm->phase = 0;
     const Bytes *pd; const std::string *pl;
     if (g_tail) { tail_case(i, dg, label); pd = &dg; pl = &label; } else { pd = &g_cases[i].dg; pl = &g_cases[i].label; }
+    unsigned vg0 = VALGRIND_COUNT_ERRORS;
     shm->phase = 1; Obs o0 = run_once(*pd, 0x00);
     shm->phase = 2; Obs o1 = run_once(*pd, 0xA5);
-    shm->phase = 3; judge(*pd, *pl, o0, o1);
+    unsigned vg1 = VALGRIND_COUNT_ERRORS;
+    shm->phase = 3;
+    if (vg1 != vg0) { Strict sx = ref_strict(pd->data(), pd->size()); violation("dns-" + (sx.shape == "well-formed" ? std::string("well-formed-reply") : sx.shape) + "-valgrind-reports-invalid-or-uninitialised-value-use", *pl, *pd, std::to_string(vg1 - vg0) + " memcheck errors during the two deliveries"); outcome(pl->substr(0, pl->find(' ')) + " -> memcheck-error"); }
+    else judge(*pd, *pl, o0, o1);
     if (shm->samples < 4 && (shm->done % 997) == 3) { shm->samples++; std::string s = "@SAMPLE " + g_tagname + " " + *pl + " :: " + hex(*pd) + " => " + o0.str() + "\n"; emit(s.c_str()); }
     shm->done++;
   }
@@ -237,6 +254,7 @@ static std::string slurp(int fd) { std::string s; char b[4096]; lseek(fd, 0, SEE
 
 int main(int argc, char **argv) {
   std::string mode = argc > 1 ? argv[1] : "struct";
+  if (RUNNING_ON_VALGRIND) BUILD_TAG = "valgrind";
   setvbuf(stdout, nullptr, _IONBF, 0);
   shm = (Shm *)mmap(nullptr, sizeof(Shm), PROT_READ | PROT_WRITE, MAP_SHARED | MAP_ANONYMOUS, -1, 0); memset(shm, 0, sizeof(Shm));
   { const char *e = getenv("VERIF_DEADLINE_S"); g_deadline = real_now_s() + (e ? atof(e) : 600);
@@ -300,7 +318,7 @@ int main(int argc, char **argv) {
   for (auto &e : shm->sigs) if (e.sig[0]) printf("@INFO %s shard %lu: %lu datagrams with signature %s\n", g_tagname.c_str(), (unsigned long)g_shard, (unsigned long)e.n, e.sig);
   bool plain = std::string(BUILD_TAG) == "plain";   // distinct datagrams are counted once (plain build); the ASan build re-evaluates a subset
   printf("@STAT states=%lu %s=%lu transitions=%lu executions=%lu violations=%lu callbacks=%lu ignored=%lu paint_dependent=%lu worker_deaths=%lu workers=%d world_reused=%lu world_rebuilt=%lu strict_exact=%lu strict_lenient=%lu\n",
-         (unsigned long)(plain ? shm->done : 0), plain ? "datagrams_plain" : "datagrams_asan", (unsigned long)shm->done, (unsigned long)shm->execs, (unsigned long)shm->execs, (unsigned long)shm->viols, (unsigned long)shm->callbacks, (unsigned long)shm->ignored,
+         (unsigned long)(plain ? shm->done : 0), plain ? "datagrams_plain" : RUNNING_ON_VALGRIND ? "datagrams_valgrind" : "datagrams_asan", (unsigned long)shm->done, (unsigned long)shm->execs, (unsigned long)shm->execs, (unsigned long)shm->viols, (unsigned long)shm->callbacks, (unsigned long)shm->ignored,
          (unsigned long)shm->paint_diff, (unsigned long)crashes, spawned, (unsigned long)shm->reused, (unsigned long)shm->rebuilt, (unsigned long)shm->strict_exact, (unsigned long)shm->strict_differs);
   if (mode == "one") { /* print the observation for a human */ }
   return 0;
